@@ -63,6 +63,9 @@ row("g_none_async", "async")
 row("g_alias", "sync", tags=["tc"], alias="alias_one", limit=2, policy="lfu")
 row("g_alias_async", "async", events=["eb"], alias="alias_two")
 row("g_mem", "sync", ret="str", tags=["tb"], maxmem=100, policy="lru")
+# a function that names itself (and another one) among its dependencies
+row("g_self", "sync", deps=["g_self"], tags=["ta"], limit=3, policy="fifo")
+row("g_self_async", "async", deps=["g_self_async", "g_a"], events=["ea"])
 # async bodies with await points (C20)
 row("a_await1", "async", awaits=1, limit=2, policy="lru")
 row("a_await2_ttl2", "async", awaits=2, ttl=2, limit=2, policy="fifo")
